@@ -124,7 +124,9 @@ func (c *Conn) loop(ctx context.Context) {
 			if req.WantReply {
 				n, err := c.swarm.askHub.Deliver(ctx, resp, msg)
 				if err != nil {
+					// no handler saw the request (the swarm is closed): that is a failed ask, not an empty answer.
 					log.Println(err)
+					n = -1
 				}
 				ok := n >= 0
 				if n < 0 {
